@@ -28,6 +28,7 @@ META = {
                 "csr.bus.Multiplexer.elaborate", "csr.reg.Bridge.elaborate", "wishbone.sram.WishboneSRAM.elaborate",
                 "csr.event.EventMonitor.elaborate", "gpio.Peripheral.elaborate", "memory.MemoryMap.add_window",
                 "memory.MemoryMap.window_patterns", "memory.MemoryMap.all_resources", "memory.MemoryMap.decode_address"],
+    "also": "zero-width leaf registers; registers added to a map after its multiplexer object exists; decoders whose windows are all explicit and added from the top address down; finding D4's unbalanceable layout behind a decoder; a warm-up instance elaborated first",
     "bounds": "CSR roots: csr.Decoder (addr width 5-8, data width 8/16, alignment 0-4) over 1-3 windows, each a stub-"
               "register multiplexer (1-3 registers, unaligned / padded), a register bridge, an event monitor (1-24 "
               "events), a GPIO peripheral or a nested decoder (depth <= 3); named/anonymous, implicit / explicit "
